@@ -102,11 +102,24 @@ class Abstract:
         return bad
 
     def by_url(self):
-        m = {}
-        for i, e in enumerate(self.ents):
-            if e["url"] is not None:
-                m.setdefault(os.path.normpath(e["url"]), []).append(i)
-        return m
+        if getattr(self, "_by_url", None) is None:
+            m = {}
+            for i, e in enumerate(self.ents):
+                if e["url"] is not None:
+                    m.setdefault(norm_url(e["url"]), []).append(i)
+            self._by_url = m
+        return self._by_url
+
+    def contexts(self):
+        """entities whose documentation FORD converts with themselves as context"""
+        return [i for i, (o, e) in enumerate(zip(self.objs, self.ents))
+                if e["url"] is not None and not str(e["url"]).startswith("http") and hasattr(o, "doc_list")
+                and not hasattr(o, "external_url")]
+
+
+def norm_url(u):
+    u = str(u)
+    return u if u.startswith("http") else os.path.normpath(u)
 
 
 A_RE = re.compile(r'^<p><a(?: href="([^"]*)")?>(.*?)</a></p>$', re.S)
@@ -128,9 +141,11 @@ def convert(md, base, abstract, ctx_id, text, path=None):
     if href is None:
         return ("plain", txt, "warning" if "Could not substitute link" in buf.getvalue() else "no-warning")
     href = html.unescape(href)
+    if href.startswith("http"):
+        return ("link", abstract.by_url().get(href, []), href, txt)
     cur = md.current_path
     target = os.path.normpath(os.path.join(str(cur), href.split("#")[0]))
     rel = os.path.relpath(target, str(base))
     if "#" in href:
         rel += "#" + href.split("#", 1)[1]
-    return ("link", abstract.by_url().get(os.path.normpath(rel), []), rel, txt)
+    return ("link", abstract.by_url().get(norm_url(rel), []), rel, txt)
